@@ -15,7 +15,10 @@ def V(n):
 I_LEAVES = [("t",), ("r",)]
 B_LEAVES = [("bt",), ("bf",)]
 O_LEAVES = [("o",), ("on",)]
-BIN_I = ["-", "*", "f2", "m", "+s", "+", "/", "%", "&", "|", "xor", "<<", ">>"]   # I x I -> I  (+s: string concatenation)
+# callee forms of a two-argument call: f2 named function, m method, iife function literal called on the spot, fldm function stored in a
+# field called through the object, fldp the same through a parenthesised lookup, elem function taken from a list, res function returned by a call
+CALLEE_FORMS = ["iife", "fldm", "fldp", "elem", "res"]
+BIN_I = ["-", "*", "f2", "m", "+s", "+", "/", "%", "&", "|", "xor", "<<", ">>"] + CALLEE_FORMS   # I x I -> I  (+s: string concatenation)
 CMP = ["<", "<=", ">", ">=", "==", "!="]       # I x I -> B
 CORE = {"-", "*", "f2", "m", "+s", "<", ">", "&&", "||", "!", "or", "f3", "f4", "sum3", "msum", "idx"}   # node kinds used by the deep layers
 WIDE_I = {"f3": 3, "f4": 4, "sum3": 3, "msum": 4, "idx": 3}
@@ -175,7 +178,7 @@ def trees_spine(depth, t, memo=None):
     return out
 
 
-SYNTACTIC = set(BIN_I) - {"f2", "m", "+s"} | set(CMP) | set(BIN_B) | {"!", "or"}
+SYNTACTIC = set(BIN_I) - {"f2", "m", "+s"} - set(CALLEE_FORMS) | set(CMP) | set(BIN_B) | {"!", "or"}
 
 
 def syntactic_chain(n, need):
@@ -246,6 +249,16 @@ class Builder:
             return ("call", V(k), ch)
         if k == "m":
             return ("method", V("ko"), "m", ch)
+        if k == "iife":
+            return ("call", F2_LITERAL, ch)
+        if k == "fldm":
+            return ("method", V("kh"), "g2", ch)
+        if k == "fldp":
+            return ("call", ("field", V("kh"), "g2"), ch)
+        if k == "elem":
+            return ("call", ("index", V("fl2"), ("int", 0)), ch)
+        if k == "res":
+            return ("call", ("call", V("mk2"), []), ch)
         if k == "sum3":
             return ("call", V("sum3"), [("list", ch)])
         if k == "idx":
@@ -257,6 +270,11 @@ class Builder:
 
 def lit(n):
     return ("int", n)
+
+
+F2_LITERAL = ("fn", [("a", "int"), ("b", "int")], "int",
+              [("print", ("bin", "+", ("bin", "+", ("str", "f2 "), V("a")), ("bin", "+", ("str", " "), V("b")))),
+               ("return", ("bin", "-", ("bin", "*", V("a"), lit(2)), V("b")))])
 
 
 def prelude(used=None):
@@ -298,6 +316,10 @@ def prelude(used=None):
     msum = ("assign", "msum", ("fn", [("mm", "map[int, int]")], "int",
                                [("print", ("bin", "+", ("str", "msum "), ("method", V("mm"), "len", []))),
                                 ("return", ("method", V("mm"), "len", []))]), None, ())
+    holder = ("class", "Hold", [("g2", "fn(int, int) -> int")], ([("g", "fn(int, int) -> int")], [("setfield", V("self"), "g2", V("g"))]), [])
+    kh = ("assign", "kh", ("new", "Hold", [V("f2")]), None, ())
+    fl2 = ("assign", "fl2", ("list", [V("f2")]), None, ("const",))
+    mk2 = ("assign", "mk2", ("fn", [], "fn(int, int) -> int", [("return", V("f2"))]), None, ())
     gx = ("assign", "gx", lit(1), None, ())
     u = ("assign", "u", ("fn", [("i", "int")], "int",
                          [("print", ("bin", "+", ("str", "u "), V("i"))),
@@ -312,7 +334,8 @@ def prelude(used=None):
               ("return", ("bin", "+", ("bin", "-", V("a"), V("b")), ("field", V("self"), "base")))])])
     ko = ("assign", "ko", ("new", "K", [lit(10)]), None, ())
     need = {"v": [gx], "u": [gx, u], "vb": [gb], "ub": [gb, ub], "t": [t], "r": [t, r], "bt": [bv], "bf": [bv], "o": [ov], "on": [ov], "f2": [f2], "f3": [f3], "f4": [f4],
-            "sum3": [sum3], "idx": [pick], "+s": [slen], "msum": [msum], "m": [cls, ko]}
+            "sum3": [sum3], "idx": [pick], "+s": [slen], "msum": [msum], "m": [cls, ko],
+            "iife": [], "fldm": [f2, holder, kh], "fldp": [f2, holder, kh], "elem": [f2, fl2], "res": [f2, mk2]}
     out = []
     for k in (used if used is not None else need):
         for d in need.get(k, []):
@@ -348,7 +371,7 @@ def body_of(tree, ctx, k=""):
     raise ValueError(ctx)
 
 
-ORDER = ["v", "u", "vb", "ub", "t", "r", "bt", "bf", "o", "on", "f2", "f3", "f4", "sum3", "idx", "+s", "msum", "m"]
+ORDER = ["v", "u", "vb", "ub", "t", "r", "bt", "bf", "o", "on", "f2", "f3", "f4", "sum3", "idx", "+s", "msum", "m"] + CALLEE_FORMS
 
 
 def used_of(tree, ctx):
@@ -404,7 +427,8 @@ class C15(Check):
             "evaluates a binary expression there), b(i) (bool true/false), o(i) (int? present/nil), and - in the variable-leaf layers - bare reads of a "
             "module variable (int gx / bool gb) next to calls u(i) / ub(i) that log, modify that variable and return it, so that a read "
             "performed too late or too early is visible, and - in the constant-leaf layers - literals (true, false, 2, 0) next to logging siblings; nodes: every binary operator of the language (+ - * / % & | xor << >> < <= > >= == != && || ^), string concatenation, "
-            " f2..f4(E,..), obj.m(E,E), list literal [E,E,E], list literal + index, map literal {E:E,E:E}, B&&B, B||B, !B, (O) or E; "
+            " f2..f4(E,..), obj.m(E,E), five further callee forms of a two-argument call (function literal called on the spot, function in a field through the object "
+            "and through a parenthesised lookup, function from a list element, function returned by a call), list literal [E,E,E], list literal + index, map literal {E:E,E:E}, B&&B, B||B, !B, (O) or E; "
             "all trees of depth <=1, depth 2 with every child arbitrary for unary/binary nodes, depths 2-4 by rule 1 (one arbitrary child, "
             "siblings over all leaves); statement contexts print / assignment / if condition / while condition / call argument / return.")
     assumptions = ["leaf values are small so that no arithmetic overflow occurs", "map literal observed through its length only",
